@@ -80,6 +80,89 @@ where
     s.parse::<T>().map(|_| ()).map_err(|e| e.to_string())
 }
 
+/// Deliberately misbehaving decoder used by the machinery self-test only.
+fn misbehave(b: &[u8]) -> Result<(), String> {
+    #[allow(unconditional_recursion)]
+    fn deep(n: u64, pad: [u8; 512]) -> u64 {
+        if n == u64::MAX {
+            return pad[0] as u64;
+        }
+        std::hint::black_box(deep(n + 1, std::hint::black_box([n as u8; 512]))) + 1
+    }
+    match b.first() {
+        Some(b'A') => std::process::abort(),
+        Some(b'M') => {
+            let v: Vec<u64> = Vec::with_capacity(u32::MAX as usize);
+            Err(format!("allocated {}", v.capacity()))
+        }
+        Some(b'm') => {
+            // many medium allocations that add up above the budget
+            let mut keep = vec![];
+            for _ in 0..80 {
+                keep.push(vec![1u8; 1024 * 1024]);
+            }
+            Ok(drop(keep))
+        }
+        Some(b'P') => panic!("selftest panic"),
+        Some(b'T') => {
+            // a panic swallowed by a spawned task
+            run(async {
+                let _ = tokio::task::spawn(async { panic!("selftest task panic") }).await;
+            });
+            Ok(())
+        }
+        Some(b'S') => Err(format!("{}", deep(0, [0u8; 512]))),
+        Some(b'E') => Err("selftest error".into()),
+        _ => Ok(()),
+    }
+}
+
+/// Exercise the worker / client machinery with the misbehaving decoder.
+pub fn selftest() -> i32 {
+    std::env::set_var("SV_CODEC_SELFTEST", "1");
+    let ctx = Ctx::new();
+    let Some((idx, entry)) = ctx.entry("selftest/misbehave") else {
+        println!("FAIL selftest entry missing");
+        return 1;
+    };
+    let mut bad = 0;
+    let mut expect = |what: &str, ok: bool, got: String| {
+        println!("{} {} [{}]", if ok { "ok  " } else { "FAIL" }, what, got.chars().take(160).collect::<String>());
+        if !ok {
+            bad += 1;
+        }
+    };
+    let sig = |o: &Outcome, input: &[u8]| -> String {
+        let mut info = CaseInfo::default();
+        match judge(entry, input, o, &mut info) {
+            Ok(()) => format!("ok {:?}", info.classes),
+            Err(f) => f.signature,
+        }
+    };
+    let o = exec(idx, b"ok");
+    expect("a value is a pass", o == Outcome::Value, format!("{:?}", o));
+    let o = exec(idx, b"E");
+    expect("an error is a pass", matches!(o, Outcome::Error(_)) && sig(&o, b"E").starts_with("ok"), format!("{:?}", o));
+    let o = exec(idx, b"P");
+    expect("a panic is reported with its site", sig(&o, b"P").starts_with("decode-panic/selftest/misbehave/src/prop_c15.rs:"), sig(&o, b"P"));
+    let o = exec(idx, b"T");
+    expect("a panic swallowed by a task is reported", sig(&o, b"T").starts_with("task-panic/selftest/misbehave/"), sig(&o, b"T"));
+    let o = exec(idx, b"M");
+    expect("a huge single allocation trips the guard", sig(&o, b"M") == "alloc/selftest/misbehave", format!("{:?}", o));
+    let o = exec(idx, b"m");
+    expect("many allocations above the budget trip the guard", sig(&o, b"m") == "alloc/selftest/misbehave", format!("{:?}", o));
+    let o = exec(idx, b"ok");
+    expect("the worker is respawned after a trip", o == Outcome::Value, format!("{:?}", o));
+    let o = exec(idx, b"A");
+    expect("an abort is confirmed and reported", sig(&o, b"A").starts_with("abort/selftest/misbehave/"), sig(&o, b"A"));
+    let o = exec(idx, b"S");
+    expect("a stack overflow is confirmed and reported", sig(&o, b"S").starts_with("abort/selftest/misbehave/"), sig(&o, b"S"));
+    let o = exec(idx, b"ok");
+    expect("the worker is respawned after a death", o == Outcome::Value, format!("{:?}", o));
+    shutdown_client();
+    bad
+}
+
 fn header_of(label: &str) -> usize {
     match label {
         "WriteEvent" | "AccountEvent" | "DeviceEvent" | "FileEvent" => 2,
@@ -177,6 +260,10 @@ pub fn entries() -> Vec<Entry> {
         8,
     ));
     v.push(fs("fs/header_files", fs_header_files, "Vault", 8));
+    // machinery self-test (`sv codec-selftest` sets SV_CODEC_SELFTEST for itself and its workers)
+    if std::env::var("SV_CODEC_SELFTEST").is_ok() {
+        v.push(rel("selftest/misbehave", misbehave, &["Cipher"]));
+    }
     // text entry points
     let tx = |name: &str, run: fn(&[u8]) -> Result<(), String>, seed: &str| Entry {
         name: name.to_string(),
